@@ -178,6 +178,11 @@ def _call(case, x, n, out=None):
     return f(x, n=n, **kw)
 
 
+def _in_dom(dom, k):
+    return {'all': True, 'all0': True, 'small0': abs(k) <= 1, 'pos': k > 0, 'nz': k != 0, 'unit': k == 0, 'nonint': False, 'gam': k > 0,
+            'gt1': k > 1, 'clip': True}.get(dom, False)
+
+
 def calling_fails(ctx, case):
     """the documented calling conventions give the same derivative: no `out`, a fresh `out`, and `out` aliasing the
     argument (in place); the argument is not modified unless it is the output"""
@@ -203,6 +208,18 @@ def calling_fails(ctx, case):
     except Exception as ex:
         return 'calling-exception-%s: nthderiv.%s with an out argument raised %s' % (case['fn'], case['fn'], type(ex).__name__)
     ok = lambda u, w: np.allclose(u, w, rtol=1e-12, atol=1e-300, equal_nan=True)
+    # integer-valued points of the domain given as an integer array: the same values as for the float array
+    ipts = np.array([k for k in (1, 2, 3, -1, -2, 0) if _in_dom(dom, k)][:3])
+    if ipts.size and not (case['fn'] == 'reciprocal' and n == 0):      # numpy.reciprocal itself truncates on integer arrays
+        try:
+            with np.errstate(all='ignore'):
+                vf = np.array(_call(case, ipts.astype(float), n), dtype=float)
+                vi = np.array(_call(case, ipts.astype(int), n), dtype=float)
+        except Exception as ex:
+            vf = vi = None
+        if vf is not None and np.all(np.isfinite(vf)) and (vi.shape != vf.shape or not ok(vf, vi)):
+            return 'calling-int-%s: nthderiv.%s at the integer points %s given as an int array differs from the float call (n=%d): %s vs %s' % (
+                case['fn'], case['fn'], ipts.tolist(), n, vi.tolist(), vf.tolist())
     if not ok(a, b):
         return 'calling-out-%s: nthderiv.%s(x, out=o, n=%d) differs from the value returned without out' % (case['fn'], case['fn'], n)
     if not ok(a, c):
